@@ -209,7 +209,7 @@ def run_e2e(sh, ctx):
 			# history in this process: earlier calls asked for OTHER settings - as keyword arguments, and through a params object the
 			# caller keeps and re-uses; the call judged below asks for nothing, i.e. the documented default (non-strict) mode
 			from gambit.query import QueryParams
-			mine = QueryParams(report_closest=2)
+			mine = QueryParams(report_closest=[1, 2, 3, 1][wi % 4])      # fewer list entries than genomes tied at the minimum: the list must not decide which genome is 'the closest match'
 			style = ['keywords', 'params-object', 'both-then-default', 'none'][wi % 4]
 			try:
 				if style in ('keywords', 'both-then-default'):
@@ -220,7 +220,7 @@ def run_e2e(sh, ctx):
 			except Exception as e:
 				ctx.count(f'preceding_calls_raised:{type(e).__name__}')
 			ctx.count(f'preceding_calls:{style}')
-			if (mine.classify_strict, mine.report_closest) != (False, 2):
+			if (mine.classify_strict, mine.report_closest) != (False, [1, 2, 3, 1][wi % 4]):
 				ctx.count('callers_params_object_changed')
 			results = query(db, qsigs, inputs=[q['label'] for q in w.queries]) if wi % 2 else query(db, qsigs, mine, inputs=[q['label'] for q in w.queries])
 			key2t = {info['key']: t for t, info in zip(w.taxa, w.tinfo)}
